@@ -43,6 +43,8 @@ func runC03(c *an.Ctx) {
 	r046(c, "R03.15")
 	r165held(c, "R03.15") // the reference of the equivalence test follows what was delivered (shared with R16.5)
 	c.Min("R03.15", 2)
+	r0117as(c, "R03.18") // Get/List return what the last event announced: the save callback stores the merged message it is given (shared with R01.17)
+	c.Min("R03.18", 2)
 	r1418(c, "R03.16") // an aggregate's subscription is folded from unfiltered items: read options are applied once (shared with R14.18)
 	c.Min("R03.16", 2)
 	r062filters(c, "R03.17") // the projected copy of a change keeps id, type and times: a masked stream folds to the masked listing (shared with R06.2)
